@@ -22,7 +22,7 @@ TIERS = {
 RULE = ('one run = one sampled (bytes, dialect, encoding, pacing, timing pattern, highWaterMark) with a set of chunkings: every composition of the bytes into chunks when there '
         'are <= 7 bytes, else 48 sampled compositions (always including one-byte chunks and the single chunk); an evaluation is one chunking delivered through a real '
         'stream.Readable to the real CSVRecordIterator and compared with bulk reading. Non-trivial = >= 2 chunks and the content has a line break, quote or multi-byte character; '
-        'distinct = distinct (scenario key, chunking). A small fraction of runs reads a > 64 KiB file through fs.createReadStream.')
+        'distinct = distinct (scenario key, chunking). A small fraction of runs reads a > 64 KiB file through fs.createReadStream; about one run in eight keeps two readers alive at once (rbql.query with a JOIN table that is itself a planned stream).')
 COMPONENTS = {
     'real': ['rbql_csv.js CSVRecordIterator (stream and bulk paths, RecordQueue, preread/pause/resume)', 'csv_utils.js split_lines / smart_split / MultilineRecordAggregator',
              'Node stream.Readable state machine, util.TextDecoder', 'fs.createReadStream + fs.readFile in the large-file scenario'],
